@@ -1,5 +1,7 @@
 package graphql
 
+import "sort"
+
 const (
 	// Operations
 	DirectiveLocationQuery              = "QUERY"
@@ -84,6 +86,9 @@ func NewDirective(config DirectiveConfig) *Directive {
 			DefaultValue:       argConfig.DefaultValue,
 		})
 	}
+
+	// config.Args is a Go map: list the arguments in a defined (name) order.
+	sort.Slice(args, func(i, j int) bool { return args[i].PrivateName < args[j].PrivateName })
 
 	dir.Name = config.Name
 	dir.Description = config.Description
